@@ -12,9 +12,9 @@ trap cleanup EXIT
 git -C /repo worktree add -q --detach "$wt" HEAD || exit 2
 if ! git -C "$wt" apply "$patch"; then echo "seedrun: patch does not apply"; exit 2; fi
 mkdir -p "$root"
-rsync -a --exclude .git --exclude bin --exclude evidence --exclude seeded /verif/ "$root/"
+rsync -a --exclude /.git --exclude /bin --exclude /evidence --exclude /seeded /verif/ "$root/"
 out="$(VERIF_ROOT="$root" VERIF_REPO="$wt" "$root/run.sh" "$prop" "$tier" 2>&1)"
 code=$?
-echo "$out" | grep -E "^VIOLATION|^  key=|^KNOWN-FINDING|^$prop |run.sh:|broken|vacuous" | cut -c1-260 | head -40
+echo "$out" | grep -E "^VIOLATION|^  key=|^KNOWN-FINDING|^$prop |run.sh:|broken|vacuous" | cut -c1-260 | head -40; echo "$out" | tail -5 | cut -c1-300
 echo "seedrun: $patch $prop exit=$code"
 exit $code
